@@ -141,7 +141,9 @@ Definition port_link_bytes (link : plink) : res bytes :=
   match link with
   | LinkStr s =>
       if isdigit s (* str.isnumeric() on ASCII text *)
-      then match digits_val s 0 with Some z => USINT_encode z | None => Err (Foreign ValueError) end
+      then (if len s <=? int_max_str_digits       (* int(): longer decimal strings raise ValueError *)
+            then match digits_val s 0 with Some z => USINT_encode z | None => Err (Foreign ValueError) end
+            else Err (Foreign ValueError))
       else if ip_v4_ok s then utf8_encode s else Err (Foreign ValueError)
   | LinkInt z => USINT_encode z
   | LinkBytes b => Ok b
